@@ -971,5 +971,336 @@ Proof.
     + constructor; [constructor; [reflexivity | constructor]|].
       constructor; [apply w_leaf_sorted|]. constructor; [|constructor]. cbn [snd].
       constructor; [constructor|]. constructor; [apply w_leaf_sorted | constructor].
-  - unfold tree_unchanged. apply f_equal. vm_compute. reflexivity.
+  - unfold tree_unchanged. vm_compute. reflexivity.
 Qed.
+
+(* ---- D3 (known finding): with patterns, an entry added while the directory's own record stays the same (mtime
+   restored) is not seen: the stored filtered listing is reused.  Without patterns the same edit is seen. *)
+Definition w_x_tmp : bytes := [120; 46; 116; 109; 112].       (* the pattern: a literal name *)
+Definition w_new : bytes := [110; 101; 119].
+Definition w_d0 : vtree := VNode (w_dir 10 100) [(w_a, VNode (w_file 11 33188 5 100) [])].
+Definition w_d1 : vtree := VNode (w_dir 10 100) [(w_a, VNode (w_file 11 33188 5 100) []); (w_new, VNode (w_file 15 33188 1 103) [])].
+
+Lemma filtered_listing_stale :
+  excluded lit_match [w_x_tmp] w_new = false /\
+  In w_new (names (match w_d1 with VNode _ cs => cs | VMissing => [] end)) /\
+  tree_unchanged lit_match [w_x_tmp] w_tree (clean_build lit_match [w_x_tmp] w_d0) w_d1 /\
+  struct_unchanged lit_match [w_x_tmp] w_tree (clean_build lit_match [w_x_tmp] w_d0) w_d1 /\
+  ~ tree_unchanged lit_match [] w_tree (clean_build lit_match [] w_d0) w_d1 /\
+  ~ struct_unchanged lit_match [] w_tree (clean_build lit_match [] w_d0) w_d1.
+Proof.
+  split; [reflexivity|]. split; [right; left; reflexivity|].
+  split; [unfold tree_unchanged; vm_compute; reflexivity|].
+  split; [unfold struct_unchanged; vm_compute; reflexivity|].
+  split; unfold tree_unchanged, struct_unchanged; vm_compute; intros E; discriminate E.
+Qed.
+
+(* ---- D4 (known finding): every query follows symbolic links, so a link and a hard link to its target look the
+   same to both signatures, and a link to a regular file and another regular file look the same to the structure
+   signature *)
+Definition w_fa : fileinfo := w_file 11 33188 5 100.
+Definition w_fb : fileinfo := w_file 16 33188 9 104.
+Definition w_li : fileinfo := mkFI 1 17 41471 1 100 0 zeros32.       (* 0120777: the link itself *)
+Definition w_t_link : tree := Dir (w_dir 10 100) [(w_a, File w_fa); (w_l, Link w_li (Some [47; 120; 47; 97]) (File w_fa))].
+Definition w_t_hard : tree := Dir (w_dir 10 100) [(w_a, File w_fa); (w_l, File w_fa)].
+Definition w_t_file : tree := Dir (w_dir 10 100) [(w_a, File w_fa); (w_l, File w_fb)].
+
+Lemma symlink_seen_through : forall matches skip,
+  w_t_link <> w_t_hard /\
+  observe skip w_tree w_t_link = observe skip w_tree w_t_hard /\
+  struct_tokens matches [] w_tree (observe skip w_tree w_t_link) = struct_tokens matches [] w_tree (observe skip w_tree w_t_file) /\
+  tree_tokens matches [] w_tree (observe skip w_tree w_t_link) <> tree_tokens matches [] w_tree (observe skip w_tree w_t_file).
+Proof.
+  intros matches skip. split; [intros E; discriminate E|]. split; [destruct skip; vm_compute; reflexivity|]. split.
+  - destruct skip; vm_compute; reflexivity.
+  - destruct skip; vm_compute; intros E; discriminate E.
+Qed.
+
+(* ---- D5 (repaired): before the repair a link whose real path is a STRING prefix of the directory's path was left out
+   of the unfiltered listing although it does not lead to an ancestor: /x/tree2 holding l -> /x/tree *)
+Definition w_p2 : bytes := [47; 120; 47; 116; 114; 101; 101; 50].        (* /x/tree2 *)
+Definition w_rp : bytes := [47; 120; 47; 116; 114; 101; 101].            (* /x/tree  *)
+Definition w_t_sib : tree := Dir (w_dir 20 100) [(w_l, Link w_li (Some w_rp) (Dir (w_dir 10 100) [(w_a, File w_fa)]))].
+
+Lemma ancestor_test_unrepaired_refuted :
+  pip w_p2 w_rp = false /\
+  observe_unrepaired true w_p2 w_t_sib = VNode (w_dir 20 100) [] /\
+  observe true w_p2 w_t_sib = VNode (w_dir 20 100) [(w_l, VNode (w_dir 10 100) [(w_a, VNode w_fa [])])].
+Proof. split; [vm_compute; reflexivity|]. split; vm_compute; reflexivity. Qed.
+
+(* ---- D2 (repaired): before the repair the structure signature hashed the permission bits: two trees with the same
+   entries and types, differing in permission bits (and mtime), had different structure tokens *)
+Definition w_v0_perm : vtree :=
+  VNode (w_dir 10 100) [(w_a, VNode (w_file 11 33152 5 105) []);
+                        (w_b, VNode (w_dir 12 100) [(w_a, VNode (w_file 13 33188 7 100) [])])].
+
+Lemma structure_unrepaired_refuted : forall matches,
+  same_structure w_v0 w_v0_perm /\
+  struct_toks_unrepaired false w_tree (clean_build matches [] w_v0) <> struct_toks_unrepaired false w_tree (clean_build matches [] w_v0_perm) /\
+  struct_tokens matches [] w_tree w_v0 = struct_tokens matches [] w_tree w_v0_perm.
+Proof.
+  intros matches. split; [|split].
+  - constructor; [reflexivity|].
+    constructor; [split; [reflexivity | constructor; [reflexivity | constructor]]|].
+    constructor; [|constructor]. split; [reflexivity|]. cbn [snd].
+    constructor; [reflexivity|]. constructor; [|constructor]. split; [reflexivity | constructor; [reflexivity | constructor]].
+  - vm_compute. intros E. discriminate E.
+  - vm_compute. reflexivity.
+Qed.
+
+(* ---- D6 (repaired): before the repair the filtered listing ended at the first entry whose stat fails *)
+Definition w_t_dangling : tree := Dir (w_dir 10 100) [(w_l, Link w_li None Missing); (w_a, File w_fa)].
+
+Lemma truncating_listing_refuted :
+  observe_truncating false w_tree w_t_dangling = VNode (w_dir 10 100) [] /\
+  observe false w_tree w_t_dangling = VNode (w_dir 10 100) [(w_l, VMissing); (w_a, VNode w_fa [])].
+Proof. split; vm_compute; reflexivity. Qed.
+
+(* ------------------------------------------------------------------ incremental builds (no patterns) *)
+
+Lemma lookup_In {A : Type} (d : A) n o (l : list (bytes * A)) : NoDup (names l) -> In (n, o) l -> lookup d n l = o.
+Proof.
+  induction l as [|[m x] l IH]; intros Hnd Hin; [destruct Hin|].
+  cbn [names map fst] in Hnd. inversion Hnd as [|? ? Hnot Hnd']; subst.
+  cbn [lookup]. destruct Hin as [Hin|Hin].
+  - injection Hin as -> ->. rewrite bytes_eqb_refl. reflexivity.
+  - destruct (bytes_eqb n m) eqn:En.
+    + apply bytes_eqb_eq in En. subst m. exfalso. apply Hnot. unfold names. apply in_map_iff. exists (n, o). auto.
+    + apply IH; assumption.
+Qed.
+
+Lemma carry_keeps ni si cs i : carry (SNode ni si cs) i = ni <-> info_eqb ni i = true.
+Proof.
+  cbn [carry]. destruct (info_eqb ni i) eqn:E; [tauto|].
+  split; [intros ->; rewrite info_eqb_refl in E; discriminate | discriminate].
+Qed.
+
+Lemma cmp_sim_missing_r v : cmp_sim v VMissing <-> v = VMissing.
+Proof. split; [intros H; inversion H; reflexivity | intros ->; constructor]. Qed.
+
+Section Incremental.
+Variable matches : bytes -> bytes -> bool.
+
+Lemma rebuild_nofilter_node s i cs :
+  sorted_names (names cs) ->
+  rebuild matches [] s (VNode i cs) =
+  SNode (carry s i) i (map (fun nc : bytes * vtree => (fst nc, rebuild matches [] (lookup SMissing (fst nc) (s_children s)) (snd nc))) cs).
+Proof.
+  intros Hs. cbn [rebuild nonempty andb]. f_equal.
+  assert (E : flat_map (fun nc : bytes * vtree => let (n, c) := nc in
+                        if excluded matches [] n then [] else [(n, rebuild matches [] (lookup SMissing n (s_children s)) c)]) cs
+              = map (fun nc : bytes * vtree => (fst nc, rebuild matches [] (lookup SMissing (fst nc) (s_children s)) (snd nc))) cs).
+  { rewrite <- flat_map_singleton. apply flat_map_ext. intros [n c]. reflexivity. }
+  rewrite E. apply sort_by_sorted.
+  rewrite (names_map_snd (fun c => c)) || idtac.
+  unfold names. rewrite map_map. cbn [fst]. exact Hs.
+Qed.
+
+Lemma rebuild_children_iff (all : list (bytes * stree)) : forall (part : list (bytes * stree)) (cs : list (bytes * vtree)),
+  Forall (fun nc : bytes * vtree => forall s : stree, sorted_v (snd nc) -> nodup_v (snd nc) ->
+            (eff (rebuild matches [] s (snd nc)) = eff s <-> cmp_sim (eff s) (snd nc))) cs ->
+  Forall (fun nc : bytes * vtree => sorted_v (snd nc)) cs ->
+  Forall (fun nc : bytes * vtree => nodup_v (snd nc)) cs ->
+  (forall n o, In (n, o) part -> lookup SMissing n all = o) ->
+  (map (fun x : bytes * vtree => (fst x, eff (rebuild matches [] (lookup SMissing (fst x) all) (snd x)))) cs =
+   map (fun nc : bytes * stree => (fst nc, eff (snd nc))) part
+   <-> Forall2 (fun a b : bytes * vtree => fst a = fst b /\ cmp_sim (snd a) (snd b))
+               (map (fun nc : bytes * stree => (fst nc, eff (snd nc))) part) cs).
+Proof.
+  induction part as [|[m o] part IHp]; intros [|[n c] cs] IH Sc Nc Hall; cbn [map].
+  - split; [constructor | reflexivity].
+  - split; [discriminate | intros H; inversion H].
+  - split; [discriminate | intros H; inversion H].
+  - inversion IH as [|? ? IHc IHcs]; subst. inversion Sc as [|? ? Sch Sct]; subst. inversion Nc as [|? ? Nch Nct]; subst.
+    cbn [snd] in IHc, Sch, Nch. cbn [fst snd].
+    assert (Hall' : forall n' o', In (n', o') part -> lookup SMissing n' all = o') by (intros n' o' Hin; apply Hall; right; exact Hin).
+    specialize (IHp cs IHcs Sct Nct Hall').
+    split.
+    + intros E. injection E as En Eo Erest. subst m.
+      rewrite (Hall n o (or_introl eq_refl)) in Eo.
+      constructor; [split; [reflexivity | apply (IHc o Sch Nch); exact Eo] | apply IHp; exact Erest].
+    + intros Hf. inversion Hf as [|? ? ? ? [Hn Hcs] Ht]; subst. cbn [fst snd] in Hn, Hcs. subst m.
+      rewrite (Hall n o (or_introl eq_refl)). f_equal.
+      * f_equal. apply (IHc o Sch Nch). exact Hcs.
+      * apply IHp. exact Ht.
+Qed.
+
+Lemma Forall2_names (l : list (bytes * vtree)) : forall cs,
+  Forall2 (fun a b : bytes * vtree => fst a = fst b /\ cmp_sim (snd a) (snd b)) l cs -> names l = names cs.
+Proof.
+  induction l as [|[m o] l IHl]; intros cs Hf; inversion Hf as [|? [n c] ? ? [Hn _] Ht]; subst; [reflexivity|].
+  cbn [fst] in Hn. subst. cbn [names map fst]. f_equal. apply IHl. exact Ht.
+Qed.
+
+(* the recorded tree stays the same exactly when the tree on disk agrees with it in everything but modes *)
+Lemma rebuild_unchanged_iff v : forall s, sorted_v v -> nodup_v v ->
+  (eff (rebuild matches [] s v) = eff s <-> cmp_sim (eff s) v).
+Proof.
+  induction v as [|i cs IH] using vtree_ind'; intros s Sv Nv.
+  - cbn [rebuild eff]. rewrite cmp_sim_missing_r. split; intros E; congruence.
+  - inversion Sv as [|? ? Sn Sc]; subst. inversion Nv as [|? ? Nn Nc]; subst.
+    rewrite (rebuild_nofilter_node s i cs Sn).
+    destruct s as [|ni si olds]; [cbn [eff]; split; [discriminate | intros H; inversion H]|].
+    cbn [eff s_children]. rewrite map_map. cbn [fst snd].
+    split.
+    + intros E. injection E as Ei Ec.
+      apply (proj1 (carry_keeps ni si olds i)) in Ei.
+      constructor; [exact Ei|].
+      assert (Enames : names olds = names cs).
+      { apply (f_equal names) in Ec. unfold names in *. rewrite !map_map in Ec. cbn [fst] in Ec. symmetry. exact Ec. }
+      assert (Nold : NoDup (names olds)) by (rewrite Enames; exact Nn).
+      apply (rebuild_children_iff olds olds cs IH Sc Nc); [| exact Ec].
+      intros n o Hin. apply lookup_In; assumption.
+    + intros Hc. inversion Hc as [|? ? ? ? Ei Hf]; subst. f_equal; [apply (proj2 (carry_keeps ni si olds i)); exact Ei|].
+      assert (Enames : names olds = names cs).
+      { rewrite <- (Forall2_names _ _ Hf). symmetry. apply names_map_snd. }
+      assert (Nold : NoDup (names olds)) by (rewrite Enames; exact Nn).
+      apply (rebuild_children_iff olds olds cs IH Sc Nc); [| exact Hf].
+      intros n o Hin. apply lookup_In; assumption.
+Qed.
+
+(* the command with the directory-tree input is left alone exactly when nothing but modes changed *)
+Theorem rerun_iff p s v : wf_s s -> wf_s (rebuild matches [] s v) -> sorted_v v -> nodup_v v ->
+  (tree_unchanged matches [] p s v <-> cmp_sim (eff s) v).
+Proof.
+  intros Ws Wr Sv Nv. rewrite <- (rebuild_unchanged_iff v s Sv Nv). unfold tree_unchanged. cbn [nonempty]. split.
+  - intros E. apply (tree_toks_inj _ _ p); assumption.
+  - intros E. apply tree_toks_of_eff. exact E.
+Qed.
+End Incremental.
+
+Lemma info_eqb_carry s i : info_eqb (carry s i) i = true.
+Proof.
+  destruct s as [|ni si cs]; cbn [carry]; [apply info_eqb_refl|].
+  destruct (info_eqb ni i) eqn:E; [exact E | apply info_eqb_refl].
+Qed.
+
+Section NullBuild.
+Variable matches : bytes -> bytes -> bool.
+
+Lemma cmp_sim_rebuild v : forall s, sorted_v v -> cmp_sim (eff (rebuild matches [] s v)) v.
+Proof.
+  induction v as [|i cs IH] using vtree_ind'; intros s Sv; [constructor|].
+  inversion Sv as [|? ? Sn Sc]; subst.
+  rewrite (rebuild_nofilter_node matches s i cs Sn). cbn [eff]. constructor; [apply info_eqb_carry|].
+  rewrite map_map. cbn [fst snd]. clear Sn Sv.
+  generalize (s_children s) as olds. intros olds.
+  induction cs as [|[n c] cs IHl]; [constructor|].
+  inversion IH as [|? ? IHc IHcs]; subst. inversion Sc as [|? ? Sch Sct]; subst.
+  cbn [map fst snd]. constructor; [split; [reflexivity | apply IHc; exact Sch] | apply IHl; assumption].
+Qed.
+
+(* a second build over an unchanged tree leaves both commands alone, whatever the database held before *)
+Theorem null_build_stable p s v : sorted_v v -> nodup_v v ->
+  tree_unchanged matches [] p (rebuild matches [] s v) v /\ struct_unchanged matches [] p (rebuild matches [] s v) v.
+Proof.
+  intros Sv Nv.
+  assert (E : eff (rebuild matches [] (rebuild matches [] s v) v) = eff (rebuild matches [] s v)).
+  { apply (rebuild_unchanged_iff matches v _ Sv Nv). apply cmp_sim_rebuild. exact Sv. }
+  split.
+  - unfold tree_unchanged. apply tree_toks_of_eff. exact E.
+  - unfold struct_unchanged, struct_toks. apply (struct_toks_of_shape type_bits type_bits_dir). rewrite E. reflexivity.
+Qed.
+End NullBuild.
+
+(* ------------------------------------------------------------------ non-vacuity: the theorems applied to the witnesses *)
+
+Lemma w_v0_nodup : nodup_v w_v0.
+Proof.
+  constructor; [repeat constructor; cbn; intuition discriminate|].
+  constructor; [constructor; constructor|]. constructor; [|constructor]. cbn [snd].
+  constructor; [repeat constructor; cbn; tauto|]. constructor; [constructor; constructor | constructor].
+Qed.
+
+Example ex_tree_detects : forall matches,
+  tree_tokens matches [] w_tree w_v0 <> tree_tokens matches [] w_tree w_v1.
+Proof. intros matches. exact (tree_sig_detects matches w_tree w_v0 w_v1 w_v0_wf w_v1_wf w_v0_sorted w_v1_sorted w_edit01). Qed.
+
+Example ex_structure_ignores : forall matches,
+  struct_tokens matches [] w_tree w_v0 = struct_tokens matches [] w_tree w_v1.
+Proof. intros matches. exact (structure_ignores_content matches w_tree w_v0 w_v1 w_v0_sorted w_v1_sorted w_same_structure01). Qed.
+
+Example ex_null_build : forall matches,
+  tree_unchanged matches [] w_tree (rebuild matches [] (clean_build matches [] w_v0) w_v1) w_v1.
+Proof. intros matches. exact (proj1 (null_build_stable matches w_tree _ w_v1 w_v1_sorted
+   ltac:(constructor; [repeat constructor; cbn; intuition discriminate|];
+         constructor; [constructor; constructor|]; constructor; [|constructor]; cbn [snd];
+         constructor; [repeat constructor; cbn; tauto|]; constructor; [constructor; constructor | constructor]))). Qed.
+
+Example ex_filter_exact :
+  listing lit_match [w_x_tmp] (VNode (w_dir 10 100) [(w_x_tmp, VNode w_fa []); (w_a, VNode w_fa [])]) = [w_a].
+Proof. vm_compute. reflexivity. Qed.
+
+Example ex_hash_premise_meaning : forall H : list ftok -> N,
+  hash_good H (hashed H [TStr w_a; TSub VDirectoryTreeSignature [TStr w_b]]) ->
+  u64 (H [FStr w_b]) /\ (H [FStr w_b] = H [FStr w_a; FBytes (enc_value (mkBV VDirectoryTreeSignature (H [FStr w_b]) [] []))] -> False).
+Proof.
+  intros H [G64 Ginj]. split.
+  - apply G64. cbn. right. left. reflexivity.
+  - intros E. apply Ginj in E; [discriminate E | cbn; right; left; reflexivity | cbn; left; reflexivity].
+Qed.
+
+(* ------------------------------------------------------------------ incremental builds: the structure command *)
+
+Lemma type_bits_carry s i ni si cs : s = SNode ni si cs -> type_bits (fi_mode ni) = type_bits (fi_mode i) ->
+  type_bits (fi_mode (carry s i)) = type_bits (fi_mode ni).
+Proof. intros -> E. cbn [carry]. destruct (info_eqb ni i); [reflexivity | symmetry; exact E]. Qed.
+
+Section IncrementalStructure.
+Variable matches : bytes -> bytes -> bool.
+
+Lemma rebuild_children_shape (all : list (bytes * stree)) : forall (part : list (bytes * stree)) (cs : list (bytes * vtree)),
+  Forall (fun nc : bytes * vtree => forall s : stree, sorted_v (snd nc) -> nodup_v (snd nc) ->
+            same_structure (eff s) (snd nc) -> shape_of (eff (rebuild matches [] s (snd nc))) = shape_of (eff s)) cs ->
+  Forall (fun nc : bytes * vtree => sorted_v (snd nc)) cs ->
+  Forall (fun nc : bytes * vtree => nodup_v (snd nc)) cs ->
+  (forall n o, In (n, o) part -> lookup SMissing n all = o) ->
+  Forall2 (fun a b : bytes * vtree => fst a = fst b /\ same_structure (snd a) (snd b))
+          (map (fun nc : bytes * stree => (fst nc, eff (snd nc))) part) cs ->
+  map (fun x : bytes * vtree => (fst x, shape_of (eff (rebuild matches [] (lookup SMissing (fst x) all) (snd x))))) cs =
+  map (fun nc : bytes * stree => (fst nc, shape_of (eff (snd nc)))) part.
+Proof.
+  induction part as [|[m o] part IHp]; intros cs IH Sc Nc Hall Hf; cbn [map] in Hf; inversion Hf as [|? [n c] ? ? [Hn Hcs] Ht]; subst; [reflexivity|].
+  cbn [fst snd] in Hn, Hcs. subst m.
+  inversion IH as [|? ? IHc IHcs]; subst. inversion Sc as [|? ? Sch Sct]; subst. inversion Nc as [|? ? Nch Nct]; subst.
+  cbn [snd] in IHc, Sch, Nch. cbn [map fst snd].
+  rewrite (Hall n o (or_introl eq_refl)). f_equal.
+  - f_equal. apply (IHc o Sch Nch). exact Hcs.
+  - apply IHp; auto. intros n' o' Hin. apply Hall. right. exact Hin.
+Qed.
+
+Lemma Forall2_names_struct (l : list (bytes * vtree)) : forall cs,
+  Forall2 (fun a b : bytes * vtree => fst a = fst b /\ same_structure (snd a) (snd b)) l cs -> names l = names cs.
+Proof.
+  induction l as [|[m o] l IHl]; intros cs Hf; inversion Hf as [|? [n c] ? ? [Hn _] Ht]; subst; [reflexivity|].
+  cbn [fst] in Hn. subst. cbn [names map fst]. f_equal. apply IHl. exact Ht.
+Qed.
+
+Lemma rebuild_shape v : forall s, sorted_v v -> nodup_v v -> same_structure (eff s) v ->
+  shape_of (eff (rebuild matches [] s v)) = shape_of (eff s).
+Proof.
+  induction v as [|i cs IH] using vtree_ind'; intros s Sv Nv Hs.
+  - inversion Hs as [E|]; subst. cbn [rebuild eff]. reflexivity.
+  - inversion Sv as [|? ? Sn Sc]; subst. inversion Nv as [|? ? Nn Nc]; subst.
+    rewrite (rebuild_nofilter_node matches s i cs Sn).
+    destruct s as [|ni si olds]; [cbn [eff] in Hs; inversion Hs|].
+    cbn [eff] in Hs. inversion Hs as [|? ? ? ? Ht Hf]; subst.
+    unfold shape_of. cbn [eff shape_gen s_children].
+    rewrite (type_bits_carry (SNode ni si olds) i ni si olds eq_refl Ht). f_equal.
+    rewrite !map_map. cbn [fst snd].
+    assert (Enames : names olds = names cs).
+    { rewrite <- (Forall2_names_struct _ _ Hf). symmetry. apply names_map_snd. }
+    assert (Nold : NoDup (names olds)) by (rewrite Enames; exact Nn).
+    apply (rebuild_children_shape olds olds cs IH Sc Nc); [| exact Hf].
+    intros n o Hin. apply lookup_In; assumption.
+Qed.
+
+(* changes of size, times, inode, device or permission bits alone never re-run the structure command,
+   whatever the database state *)
+Theorem structure_incremental_ignores_content p s v : sorted_v v -> nodup_v v -> same_structure (eff s) v ->
+  struct_unchanged matches [] p s v.
+Proof.
+  intros Sv Nv Hs. unfold struct_unchanged, struct_toks. cbn [nonempty].
+  apply (struct_toks_of_shape type_bits type_bits_dir). apply (rebuild_shape v s Sv Nv Hs).
+Qed.
+End IncrementalStructure.
